@@ -225,6 +225,8 @@ def to_doc(m, rng):
             kids = [W.Elem(None, "action", attrs=[at("name", a)]) for a in actions] + [W.Elem(None, "category", attrs=[at("name", c)]) for c in cats]
             if m.noise and rng.random() < 0.3:
                 kids.append(W.Elem(None, "data", attrs=[W.Attr(ns, "scheme", W.TYPE_STRING, value="https", resid=0x01010027)]))
+            if rng.random() < 0.4:
+                rng.shuffle(kids)      # the order of <action>, <category>, <data> inside a filter carries no meaning (categories may come first)
             out.append(W.Elem(None, "intent-filter", children=kids))
         return out
 
@@ -454,11 +456,16 @@ def check_model(ctx, m, data, idx):
         if g is not KeyError and not numeq(g, m.sdk[k]):
             bad("sdk-%s" % k, "get_%s differs from <uses-sdk>" % k, g, m.sdk[k])
     t, mn = m.sdk["targetSdkVersion"], m.sdk["minSdkVersion"]
-    if not isinstance(t, str) and not (t is None and isinstance(mn, str)):
-        want = t if t is not None else (mn if mn is not None else 1)
-        g = q("get_effective_target_sdk_version", a.get_effective_target_sdk_version)
-        if g is not KeyError and g != want:
-            bad("effective-target-sdk", "get_effective_target_sdk_version differs (target, else min, else 1)", g, want)
+    # documented: the target if it is declared, else the minimum, else 1; a declared value that is not a number (platform codename of a
+    # preview build) gives the default 1 - it does NOT fall through to the next candidate
+    v = t if t is not None else mn
+    try:
+        want = 1 if v is None else int(str(v), 10)
+    except ValueError:
+        want = 1
+    g = q("get_effective_target_sdk_version", a.get_effective_target_sdk_version)
+    if g is not KeyError and g != want:
+        bad("effective-target-sdk", "get_effective_target_sdk_version differs (target, else min, else 1; 1 for a non-numeric value)", g, want)
     # features / libraries
     g = q("get_features", a.get_features)
     if g is not KeyError:
